@@ -1,0 +1,71 @@
+//go:build verif && amd64
+// +build verif,amd64
+
+package gf2p16
+
+// This file is compiled only with the "verif" build tag. It exports
+// the individual dispatch paths of the bulk kernels so that an
+// external verification harness can drive all of them on one machine.
+
+// VerifPath selects a kernel implementation.
+type VerifPath int
+
+const (
+	// VerifPathGeneric is the portable byte-wise Go kernel.
+	VerifPathGeneric VerifPath = iota
+	// VerifPathScalarAsm is the amd64 dispatch with SSSE3 reported
+	// as unavailable.
+	VerifPathScalarAsm
+	// VerifPathSSSE3 is the amd64 dispatch with SSSE3 reported as
+	// available. It must only be used when VerifCPUHasSSSE3()
+	// returns true.
+	VerifPathSSSE3
+	// VerifPathGenericT is the portable Go kernel used on
+	// little-endian non-amd64 platforms (cast to []T).
+	VerifPathGenericT
+)
+
+// VerifCPUHasSSSE3 returns whether the CPU supports SSSE3.
+func VerifCPUHasSSSE3() bool { return hasSSSE3Detected }
+
+var hasSSSE3Detected = hasSSSE3
+
+// VerifSetSSSE3 forces the dispatch flag used by MulByteSliceLE and
+// MulAndAddByteSliceLE, and returns the previous value.
+func VerifSetSSSE3(b bool) bool {
+	old := hasSSSE3
+	hasSSSE3 = b
+	return old
+}
+
+// VerifMulByteSliceLE runs MulByteSliceLE on the given path.
+func VerifMulByteSliceLE(path VerifPath, c T, in, out []byte) {
+	switch path {
+	case VerifPathGeneric:
+		mulByteSliceLEGeneric(c, in, out)
+	case VerifPathScalarAsm:
+		mulByteSliceLE(c, in, out, false)
+	case VerifPathSSSE3:
+		mulByteSliceLE(c, in, out, true)
+	case VerifPathGenericT:
+		mulSliceGeneric(c, castByteToTSlice(in), castByteToTSlice(out))
+	default:
+		panic("unknown path")
+	}
+}
+
+// VerifMulAndAddByteSliceLE runs MulAndAddByteSliceLE on the given path.
+func VerifMulAndAddByteSliceLE(path VerifPath, c T, in, out []byte) {
+	switch path {
+	case VerifPathGeneric:
+		mulAndAddByteSliceLEGeneric(c, in, out)
+	case VerifPathScalarAsm:
+		mulAndAddByteSliceLE(c, in, out, false)
+	case VerifPathSSSE3:
+		mulAndAddByteSliceLE(c, in, out, true)
+	case VerifPathGenericT:
+		mulAndAddSliceGeneric(c, castByteToTSlice(in), castByteToTSlice(out))
+	default:
+		panic("unknown path")
+	}
+}
